@@ -17,7 +17,8 @@ FNAMES = {1: "HeadMat", 2: "DipSourceMat(adaptive)", 3: "SurfSourceMat", 4: "Hea
           7: "DipSourceMat(no adapt)", 8: "DipSource2MEGMat", 9: "Surf2VolMat", 10: "DipSource2InternalPotMat"}
 CRITICAL = {2, 7}           # results that contain the omp-critical accumulation: equal up to summation order only
 ROUND_TOL = 1e-12           # |a-b| <= ROUND_TOL * max|entry| : thousands of ulps, a lost update is >= 1e-6 relative
-LOOPNAMES = {1: "D", 2: "Dstar", 3: "S diagonal", 4: "S non-diagonal", 5: "N diagonal (S in the target)", 6: "N diagonal (separate S)",
+HOOKLOOPS = {1: (11, "operatorFerguson"), 2: (12, "operatorDipolePotDer"), 3: (13, "operatorDipolePot")}
+LOOPNAMES = {9: "deflate", 1: "D", 2: "Dstar", 3: "S diagonal", 4: "S non-diagonal", 5: "N diagonal (S in the target)", 6: "N diagonal (separate S)",
              7: "N non-diagonal (S in the target)", 8: "N non-diagonal (separate S)"}
 ENV = {"OMP_WAIT_POLICY": "passive", "OMP_DYNAMIC": "false", "OMP_PROC_BIND": "false", "KMP_BLOCKTIME": "0"}
 APPLE_SIG = "operatorDipolePotDer: omp critical compiled out under __APPLE__ (macOS builds): DipSourceMat depends on the thread schedule"
@@ -116,6 +117,7 @@ def canon_impl(ints):
     body = ints[2:]
     for i in range(0, len(body), 5):
         r, th, c, idx, w = body[i:i + 5]
+        if th < 0: continue          # accesses outside parallel regions (sequential prologue, e.g. deflate's coefficient)
         d.setdefault((r, th), []).append((c, idx, w))
     return {k: sorted(v) for k, v in d.items()}, nreg
 
@@ -170,7 +172,7 @@ def tsan_run(ck, bdir, wd, mods):
         srcs = [os.path.join(V, "harness", "h_c05.cpp")] + sorted(glob.glob(R + "/OpenMEEGMaths/src/*.cpp"))
         for c in sorted(glob.glob(R + "/OpenMEEGMaths/src/*.C")): srcs += ["-x", "c++", c]
         srcs += ["-x", "c++"] + sorted(glob.glob(R + "/OpenMEEG/src/*.cpp"))
-        cmd = ["timeout", "1500", "clang++", "-std=gnu++17", "-O1", "-g", "-fopenmp", "-fsanitize=thread", "-w"] + defs + inc + srcs + \
+        cmd = ["timeout", "1500", "clang++", "-std=gnu++17", "-O1", "-g", "-fopenmp", "-fsanitize=thread", "-w", "-DC05_STATIC_BUILD"] + defs + inc + srcs + \
               ["-o", out, "-llapacke", "-lopenblas", "-lmatio", "-lhdf5_serial", "-ldl", "-rdynamic"]
         p = subprocess.run(cmd, stdout=subprocess.PIPE, stderr=subprocess.STDOUT)
         if p.returncode != 0:
@@ -312,6 +314,21 @@ def main(replay=None):
                     fp_cases.append((mc, hc, "%s, meshes %d,%d, loop %s, %s target" % (desc, a, b, LOOPNAMES[loop], "SymMatrix-like" if kind == 0 else "Matrix-like")))
     if len(fp_cases) > (40 if quick else 400):
         fp_cases = fp_cases[:40 if quick else 400]
+    hk_cases = []     # hook H1: (model case, harness case, description)
+    for k, desc, m, fs in mods:
+        if k not in dumps: continue
+        g = dumps[k]; n = g["npar"]
+        if max(len(x["ts"]) for x in g["meshes"]) > 64: continue
+        for a, ma in enumerate(g["meshes"]):
+            if ma["isolated"]: continue
+            if ma["outermost"] and ma["cb"]:
+                mc = "c05 " + " ".join(map(str, [9, 0, n] + mesh_wire(ma) + mesh_wire(ma)))
+                fp_cases.append((mc, "c05 1 %d 9 %d %d 0 %d |" % (k, a, a, len(ma["vs"]) + 2), "%s, mesh %d, loop deflate (whole geometry), SymMatrix target" % (desc, a)))
+            if len(hk_cases) < (12 if quick else 60):
+                dp = [ck.rng.uniform(-0.2, 0.2) for _ in range(3)] + list(models.random_unit(ck.rng))
+                for hl, (ml, nm) in HOOKLOOPS.items():
+                    mc = "c05 " + " ".join(map(str, [ml, 0, 6 if hl == 1 else n] + mesh_wire(ma) + mesh_wire(ma)))
+                    hk_cases.append((mc, "c05 5 %d %d %d 8 | %s" % (k, hl, a, " ".join(core.fhex(x) for x in dp)), "%s, mesh %d, loop %s (hook H1)" % (desc, a, nm)))
     fp_mism = 0; fp_acc = 0; fp_regions = 0
     if fp_cases:
         t0 = time.time()
@@ -334,7 +351,32 @@ def main(replay=None):
             else:
                 fp_acc += sum(len(v) for v in A.values()); fp_regions += nra
         ck.log("footprints: %d cases, %d regions, %d accesses, %d mismatches, %.1fs" % (len(fp_cases), fp_regions, fp_acc, fp_mism, time.time() - t0))
-    if fp_mism: broken = True
+    hk_mism = 0; hk_iters = 0; hooks_present = None
+    if hk_cases:
+        mo = core.run_model([c[0] for c in hk_cases])
+        rc, io, err = core.run_harness(hb, [c[1] for c in hk_cases], wd, env=ENV, timeout=900, tag="hook")
+        for (mc, hc, desc), m_out, i_out in zip(hk_cases, mo, io):
+            mi = [int(x) for x in m_out.split()]; ii, _ = core.fparse(i_out)
+            if ii is None or mi == [-1] or ii == [-1] or ii[0] != 0:
+                ck.violation("hook footprint run failed: " + desc, "hook case could not be run (%s): model %s impl %s" % (desc, m_out[:60], i_out[:60]),
+                             dict(kind="hook", cases=[hc], model_cases=[mc]), found_input=False); hk_mism += 1; continue
+            if ii[1] == 0:
+                hooks_present = False; continue        # the tree has no H1 markers (hook commit absent): nothing to compare
+            hooks_present = True
+            A, _ = canon_model(mi)
+            W = {it: sorted({idx for (c, idx, w) in v if w == 1}) for (r, it), v in (A or {}).items()}
+            B = {}; p = 2
+            while p < len(ii):
+                r, it, nw = ii[p], ii[p + 1], ii[p + 2]; B[it] = sorted(ii[p + 3:p + 3 + nw]); p += 3 + nw
+            hk_iters += len(B)
+            if W != B:
+                hk_mism += 1
+                bad = [it for it in sorted(set(W) | set(B)) if W.get(it) != B.get(it)][:1]
+                ck.violation("hook footprint differs: " + desc,
+                             "the entries written by one iteration of the compiled loop differ from the generated descriptor's (%s): iteration %s: model writes %s, code changed %s"
+                             % (desc, bad, W.get(bad[0]) if bad else None, B.get(bad[0]) if bad else None), dict(kind="hook", cases=[hc], model_cases=[mc]), found_input=False)
+        ck.log("hook H1: %d cases, %d single-iteration runs compared, %d mismatches%s" % (len(hk_cases), hk_iters, hk_mism, "" if hooks_present else " (markers absent in this tree)"))
+    if fp_mism or hk_mism: broken = True
 
     # ------------------------------------------------------------ (b) the real assembly functions under different thread counts
     t0 = time.time()
@@ -396,7 +438,7 @@ def main(replay=None):
             clang.update(differential_cases=len(ccases), runs=nruns, critical_vector_max_relative_deviation=cmax, hammer=io[0] if io else None)
             # replay of the macOS refutation on real code: operators.cpp compiled with -D__APPLE__ (no omp critical)
             reproduced = False; tried = 0
-            for _ in range(3):
+            for _ in range(12):
                 acase = "c05 4 %d 7 16 40 |" % kbig
                 rc, io, err = core.run_harness(hc_apple, [acase], wd, env=ENV, timeout=1200, tag="apple")
                 ints, fl = core.fparse(io[0]) if io else (None, None); tried += 40
@@ -480,7 +522,7 @@ def main(replay=None):
                   rule="footprint cases: (model, mesh pair, loop, container kind) with the accesses of every region/iteration compared as multisets; differential cases: (model, assembly function) over thread counts %s; non-trivial = every case (each has >= 12 iterations per region)" % THREADS,
                   samples=[c[2] for c in fp_cases[:2]] + [c[0] for c in dcases[:2]],
                   op_distribution=fdist, footprint_cases=len(fp_cases), footprint_regions=fp_regions, footprint_accesses=fp_acc,
-                  footprint_mismatches=fp_mism, thread_counts=THREADS, differential_runs=ndiff_runs,
+                  footprint_mismatches=fp_mism, hook_cases=len(hk_cases), hook_single_iteration_runs=hk_iters, hook_mismatches=hk_mism, hook_markers_present=hooks_present, thread_counts=THREADS, differential_runs=ndiff_runs,
                   critical_vector_max_relative_deviation=maxrel, critical_vector_cases_with_rounding_differences=crit_diff,
                   exception_cases=len(ecases), exception_cases_propagating_for_all_thread_counts=exc_ok,
                   models=[d for _, d, _, _ in mods], hypothesis_well_indexed_checked_on=len(dumps), hypothesis_failures=hyp_bad,
